@@ -171,7 +171,56 @@ def k2_shapes(tier):
     return out
 
 
+# -- K3: the full asynchronous system with the real prefetcher and block files -----------------------
+
+def k3(shape):
+    from props import c07
+    return c07.scenario(shape)
+
+
+def k3_shapes(tier):
+    cbA, cbB, cbC = {'cb': 'A'}, {'cb': 'B'}, {'cb': 'C'}
+    sA = {'cb': 'C', 'txs': [{'ins': 1, 'outs': 'A'}]}
+    sAB = {'cb': 'B', 'txs': [{'ins': 1, 'outs': 'AB'}]}
+    s2 = {'cb': 'A', 'txs': [{'ins': 2, 'outs': 'C'}]}
+    base = {'real_odb': True, 'sessions': True, 'early': False}
+    out = [
+        # a deep reorg: the orphaned blocks are no longer in the block-file cache and are fetched again
+        dict(base, deviations=0, initial=[cbA, cbB, cbC, sA, sAB, cbA, s2, sA, sAB, cbB, s2, sA, sAB],
+             script=[('reorg', 6, [cbC, sAB, sA, s2, cbA, sAB, sA])]),
+        # the same with a new branch that spends nothing: every output restored by the undo stays observable
+        dict(base, deviations=0, initial=[cbA, cbB, cbC, sA, sAB, cbA, s2, sA, sAB, cbB, s2, sA, sAB],
+             script=[('reorg', 6, [cbC, cbB, cbA, cbC, cbB, cbA, cbC])]),
+        # shallow reorgs with the real prefetcher under schedule deviations
+        dict(base, deviations=1, initial=[cbA, cbB, sA, sAB, s2], script=[('block', sA), ('reorg', 2, [cbC, sAB, s2])]),
+        dict(base, deviations=1, initial=[cbA, cbB, sA, sAB, s2], script=[('force_reorg', 2), ('block', sA)]),
+    ]
+    if tier == 'thorough':
+        out += [
+            dict(base, deviations=1, initial=[cbA, cbB, cbC, sA, sAB, cbA, s2, sA, sAB, cbB, s2, sA, sAB],
+                 script=[('reorg', 6, [cbC, sAB, sA, s2, cbA, sAB, sA]), ('reorg', 1, [sA, cbB])]),
+            dict(base, deviations=2, window=10, initial=[cbA, cbB, sA, sAB, s2], script=[('block', sA), ('reorg', 2, [cbC, sAB, s2])]),
+            dict(base, deviations=0, initial=[cbA, cbB, cbC, sA, sAB, cbA, s2, sA, sAB, cbB, s2, sA, sAB, cbA, s2],
+                 script=[('force_reorg', 7), ('block', sA)]),
+        ]
+    return out
+
+
 KERNELS = [
+    Kernel('K3', k3, k3_shapes,
+           desc='reorganisations through the full asynchronous system with the REAL OnDiskBlock: prefetcher, block files, '
+                'parser, block-file cache and its eviction',
+           encodes=['electrumx/server/block_processor.py:OnDiskBlock.prefetch_many', 'streamed_block', 'delete_blocks',
+                    'delete_stale', 'scan_files', 'iter_txs', 'iter_txs_reversed', '_chunk_offsets', '__enter__',
+                    'BlockProcessor.reorg_chain', '_reorg_hashes', '_calc_reorg_range', 'next_block_hashes',
+                    'advance_blocks', 'backup_block', 'fetch_and_process_blocks'],
+           bounds='a reorg of depth 6 on a 13-block chain (orphaned blocks beyond the 5-block file cache are fetched '
+                  'again), reorgs of depth 2 natural / forced with 1 (quick) / 2 (thorough) schedule deviations, a forced '
+                  'reorg of 7; transactions are really serialised, ids are their real double SHA-256',
+           outside='chain content is concrete here (K1 carries the symbolic content); more deviations',
+           assumptions=['daemon RPCs (including get_block, which writes the block file), sleeps and worker threads are '
+                        'stubs (vlib/fullsim.py)', 'LevelDB modelled by MemStore, files by MemFS (symbolic mode)'],
+           witnesses=1, split_depth=1),
     Kernel('K1', k1, k1_shapes,
            desc='flush, back up d blocks with the real backup_block, advance the other branch; index vs reference',
            encodes=['electrumx/server/block_processor.py:BlockProcessor.backup_block', 'advance_block', 'spend_utxo',
